@@ -12,6 +12,7 @@ Every real reader is a slice of a larger buffer (8 sentinel bytes on each side) 
 run with two sentinel patterns (AA..BB and all FF); both must equal the RefReader twin after every
 operation, for every reader in the pool.
 """
+import os
 from operator import methodcaller
 
 from hypothesis import strategies as st
@@ -575,11 +576,38 @@ def run_task(task):
             if task["shard"] == 0:
                 res.sample({"engine": "exhaustive", "data": mine[-1].hex(),
                             "ops": [MENU[11][8], MENU[4][8], MENU[13][8]][:maxd]})
+        elif task["kind"] == "opt":
+            import json
+            import subprocess
+            import sys
+            from vlib.runner import REPO, VERIF
+            code = ("import sys, json; sys.path.insert(0, %r); sys.dont_write_bytecode = True\n"
+                    "from vlib import loader; from vlib.runner import Violation; import checks.c05 as m\n"
+                    "c = loader.core(); out = None; n = 0\n"
+                    "for case in m.opt_cases():\n"
+                    "    n += 1\n"
+                    "    try:\n"
+                    "        m.run_history(c.data.EoReader, bytes.fromhex(case['data']), case['ops'])\n"
+                    "    except Violation as v:\n"
+                    "        out = v.to_json(); break\n"
+                    "print(json.dumps({'n': n, 'violation': out}))\n") % VERIF
+            for flag in ("-O", "-OO"):
+                r = subprocess.run([sys.executable, "-B", flag, "-c", code], capture_output=True, text=True,
+                                   env=dict(os.environ, VERIF_REPO=REPO, PYTHONHASHSEED="0"))
+                if r.returncode != 0:
+                    raise RuntimeError(f"python {flag} helper failed: {r.stderr[-1200:]}")
+                out = json.loads(r.stdout.strip().splitlines()[-1])
+                res.extra["optimized_interpreter_histories"] = res.extra.get("optimized_interpreter_histories", 0) + out["n"]
+                if out["violation"]:
+                    v = out["violation"]
+                    v["clause"] = "under_optimized_interpreter:" + v["clause"]
+                    v["case"]["pyflag"] = flag
+                    res.violations.append(v)
+                    break
         elif task["kind"] == "atheris":
             # secondary engine (thorough tier): coverage-guided fuzzing of (data, history) byte programs with
             # the same lockstep oracle, in a subprocess (libFuzzer ends the process)
             import json
-            import os
             import re
             import subprocess
             import sys
@@ -648,13 +676,28 @@ def plan(tier, seed):
     tasks = [{"kind": "exh", "shard": s, "nshards": NSHARDS, "depth": DEPTH[tier]} for s in range(NSHARDS)]
     tasks += [{"kind": "hyp", "n": HYP_CASES[tier], "seed": seed * 1000 + w} for w in range(HYP_WORKERS)]
     tasks += [{"kind": "long", "lo": i, "step": 8} for i in range(8)]
-    import os
+    tasks.append({"kind": "opt"})
     if tier == "thorough" and os.path.isdir(os.path.join(os.path.dirname(os.path.dirname(os.path.abspath(__file__))), ".deps", "atheris")):
         tasks += [{"kind": "atheris", "runs": 60000, "seed": seed * 1000 + 700 + w, "corpus": w % 2 == 0} for w in range(16)]
     return tasks
 
 
 LONG_LENGTHS = (252, 253, 254, 255, 256, 257, 64007, 64008, 64009, 64010, 65535, 65536, 70001, 200003)
+
+
+def opt_cases():
+    """A small fixed set of histories for the interpreter-configuration spot check."""
+    out = []
+    for data in (b"", b"\x01\x02\xff\x03\xff\xff\x04", b"\xff\x7c\x67", b"\x05\x06\x07\x08\x09"):
+        for h in ([[0, "get_int", None, None], [0, "get_int", None, None], [0, "get_byte", None, None]],
+                  [[0, "mode", True, None], [0, "get_three", None, None], [0, "next_chunk", None, None],
+                   [0, "get_bytes", 9, None], [0, "next_chunk", None, None], [0, "get_string", None, None]],
+                  [[0, "get_bytes", 40, None], [0, "mode", True, None], [0, "get_short", None, None],
+                   [0, "slice", None, None], [1, "get_fixed_string", 3, True]],
+                  [[0, "slice", 1, 3], [1, "mode", True, None], [1, "get_encoded_string", None, None],
+                   [1, "get_char", None, None], [0, "get_fixed_encoded_string", 70, False]]):
+            out.append({"data": data.hex(), "ops": h})
+    return out
 
 
 def long_cases():
